@@ -487,6 +487,18 @@ fn read_operations_since_from_file(
                 total_size,
                 no_more_smaller
             );
+            // Several records can share one timestamp (a replicate-snapshot of many databases
+            // writes one record per database): start from the first record of that run
+            while opp_time == since && seek_point >= size_as_u64 {
+                f.seek(SeekFrom::Start(seek_point - size_as_u64)).unwrap();
+                f.read(&mut time_buffer).unwrap();
+                if u64::from_le_bytes(time_buffer) != since {
+                    break;
+                }
+                seek_point = seek_point - size_as_u64;
+            }
+            f.seek(SeekFrom::Start(seek_point + OP_TIME_SIZE as u64))
+                .unwrap();
             while let Ok(byte_read) = f.read(&mut key_buffer) {
                 if byte_read == 0 {
                     break;
